@@ -123,7 +123,7 @@ def run(ctx, crate):
         roots += S.find_bodies(crate, suf)
     reach = S.reachable_bodies(crate, roots)
     for (b, s, p) in inv:
-        if b.path in reach:
+        if b.path in reach and p.startswith(("std::fs::", "std::process::", "std::env::", "std::net::", "std::os::", "std::io::", "std::path::")):
             c = classify(p)
             ok = c in ("pure", "read")
             obs.append(Ob("R18.readonly", b.path, "%s in analysis code" % p, ok, site=s.where,
